@@ -7,6 +7,6 @@ def run(v):
     mc.run_for(v, 'C17')
     # Lifecycle.tla: every sequence of reconnect / close / request / loss / racing calls within the constants, replayed on the real
     # client; the recorded paths are judged by the monitors of RSocket.tla
-    lifecycle.check(v, ('C17.',))
+    lifecycle.check(v, ('C17.',), 'Lifecycle_reconnect.cfg')
     # "requests issued afterwards are served": with the right payloads - nothing of the old connection may leak into them
     conn.check(v, 'C17', families.FAMILIES['C17'], also=('C01.intact', 'C01.deliver_is_next', 'C01.correlation'))
